@@ -1887,3 +1887,49 @@ PROPS["C19"]["level_text"] += (" Successive captures on one Deserializer (Props/
     "non-empty, UTF-8 on byte sources, and sits in the input immediately before what that call leaves unread, preceded only by whitespace and by "
     "what the earlier calls consumed (from Proofs.RawSpan.deRaw_sound, by induction over the calls). What a capture AFTER a failed call holds is "
     "not modelled (echo) and is judged by the executable specification of op rawseq only.")
+# ---- generator / oracle upgrades after the third round of seeded changes (branch wip-g1): C02-6, C11-7, C12-7, C14-7, C20-6, C20-7, C07-7
+PROPS["C02"]["configs"] = dict(quick=["d", "po", "ap", "fr"], thorough=["d", "po", "fr", "ap"])
+PROPS["C11"]["configs"] = dict(quick=["d", "fr"], thorough=["d", "ap", "fr"])
+PROPS["C12"]["configs"] = dict(quick=["d", "fr"], thorough=["d", "ap", "fr"])
+PROPS["C07"]["configs"] = dict(quick=["fr", "rvpofr"], thorough=["fr", "frap", "d", "rvpofr"])
+PROPS["C20"]["configs"] = dict(quick=["ap", "d"], thorough=["ap", "frap", "poap", "d", "fr"])
+LONG_SEQ_RULE = (" Tag long-seq / long-seq-str (c01::long_seq; C01, C02, C14): the value of a literal does not depend on what was parsed before it - 36 ordered "
+                 "pairs of long-number kinds in five document shapes and 400 (thorough 4000) arrays, nested arrays and object values holding 2-4 CONSECUTIVE "
+                 "long numbers (integers of 20-41 digits, fractions during which the significand overflows u64, long integers with fraction / exponent, the point "
+                 "anywhere), mixed with short numbers and null / true / false / [] / {} but no string in between (nothing resets the Deserializer's scratch "
+                 "buffer), a quarter of them after a string with an escape (which leaves its decoded bytes in the scratch buffer); quick tier also under float_roundtrip.")
+PROPS["C02"]["rule"] += LONG_SEQ_RULE
+PROPS["C01"]["rule"] += LONG_SEQ_RULE
+PROPS["C11"]["rule"] += (" Tag long-err (c01::long_err; C11, C09): syntax errors inside numbers that have left the 64-bit fast path - nine integer parts (19-30 digits, "
+                         "both sides of u64::MAX, and a short control) x twelve continuations (. .e e e+ e- .5e .5e+ .5E- E .E5 .- and a 20-digit fraction then e) x fourteen "
+                         "following bytes (letter, closers, comma, blank, newline, CR LF, quote, e . - +, a multi-byte character, end of input) in seven contexts (top level, "
+                         "array, multi-line array, object member followed by another, own line, trailing newline, unclosed nesting on line 3; quick: a third of them), plus "
+                         "300 (thorough 3000) random ones; quick tier also under float_roundtrip (parse_long_integer / parse_long_decimal / parse_long_exponent).")
+PROPS["C12"]["rule"] += (" Tag long-stream / long-stream-str (c12::long_streams): every ordered pair of twelve long numbers (decimals whose significand overflows u64 in the "
+                         "fraction, 20+-digit integers, with exponents) as a two-item stream with blank and newline separators; eight strings / containers with strings "
+                         "(plain, escaped, as object key) followed by each long number, bare and inside an array; 300 (thorough 3000) streams of 2-4 items drawn from fresh "
+                         "20-34 digit numbers with the point anywhere, the fixed long numbers, strings, arrays of long numbers and short items, every whitespace separator; "
+                         "Value and IgnoredAny items, str / slice / reader; quick tier also under float_roundtrip (the scratch buffer lives across next() calls).")
+PROPS["C14"]["rule"] += (" Tag exp-edge (c01::exp_edge): sixteen mantissas (fraction digits, 21-30 integer digits, zeros, plain) x exponent sign x nine exponents "
+                         "2147483640..2147483649, 2^32-1, 2^32, 9999999999 in four document shapes, plus 200 (thorough 2000) random 1-26 digit mantissas with 0-25 fraction "
+                         "digits and an exponent within 4 of +-i32::MAX: the implicit exponent of the mantissa and the explicit one have the same sign and their sum leaves "
+                         "i32 (the harness is built with overflow checks: an unchecked + / - panics). Tag long-seq as in C02.")
+PROPS["C20"]["rule"] += (" Tag nearmiss (c06::number_near_misses, op acc): fourteen complete literals followed by, preceded by and split by EVERY byte value 0..=255 (>= 0x80 as the "
+                         "UTF-8 text of U+0080..U+00FF), twenty two- and three-byte tails / heads (NUL bytes, blanks, line ends, a second literal, BOM), and 2000 (thorough 20000) "
+                         "random number texts with one arbitrary byte inserted: only strings of the RFC 8259 number grammar may be accepted by Number::from_str. "
+                         "Op anynum (harness/src/anynum.rs, lean/SJ/Drv/C20Any.lean; also in the default build, thorough also under float_roundtrip - builds without arbitrary_precision run tag nearmiss and op anynum only, they are the 'without the feature' side): what a visitor driven through deserialize_any receives "
+                         "(which visit_* method and the value; from str, slice and a chunked reader) and which variant serde's untagged enum {U(u64), I(i64), F(f64), S(String)} "
+                         "selects, for 35 boundary literals, the integer families of C06 (+-40, thorough +-300, around every power of two up to 2^128), 2000 (thorough 20000) "
+                         "integers of 19-21 digits on both sides of i64::MAX and u64::MAX and 2000 (thorough 20000) general number texts. The model transcribes parse_any_number "
+                         "/ ParserNumber::visit; the verdict is the statement itself, from the literal's text alone: an integer within [0, u64::MAX] arrives as visit_u64, within "
+                         "[i64::MIN, -1] as visit_i64, everything else as visit_f64 of the value (nearest-even under float_roundtrip, within 5 ulp otherwise; not finite = error). "
+                         "Under arbitrary_precision every literal of the third kind arrives as the private number-token MAP instead (open finding "
+                         "C20-ap-deserialize-any-non-integer): that marked verdict is emitted for literals of at most three bytes only (the driver prints 200 verdicts per run), "
+                         "on longer ones the exact token map passes silently (the model demands it), anything else is reported.")
+PROPS["C07"]["rule"] += (" Configuration rvpofr (float_roundtrip + raw_value): every f64rt / f32rt literal is also captured as a Box<RawValue> (alone from a str; as both elements of "
+                         "an array through a chunked reader) and the float deserialised FROM the RawValue (impl Deserializer for &RawValue): T::deserialize(&*raw), "
+                         "(&*raw).into_deserializer(), a one-field struct and a one-element tuple out of a RawValue holding {\"x\":lit} / [lit]; a path that differs from the "
+                         "str path is appended to the merged observation (X...,raw-deserialize:...), which then fails the verdict.")
+PROPS["C09"]["rule"] += " Tag long-err (c01::long_err): the long-number syntax-error family described under C11, three sources compared."
+PROPS["C11"]["rule"] += (" The crafted lc3 list also holds ten long-number texts (20+ integer digits cut short after . / e / e+, the next byte a newline variant, a closer or a "
+                         "letter) for the targets f64, f32, Value, IgnoredAny and Vec<f64>.")
